@@ -870,3 +870,44 @@ Proof.
   rewrite Hr. eexists. split; [reflexivity|].
   unfold raw_extend, notify_splice, with_items. cbn [fst items]. now rewrite Hi.
 Qed.
+
+(* ---- the dict views keys() / values() / items() -------------------------------------------------- *)
+Lemma fetch_rev k its : forall ps xs, fetch k its ps = Ok xs -> fetch k its (rev ps) = Ok (rev xs).
+Proof.
+  induction ps as [|p ps IH]; intros xs H; cbn [fetch rev] in *.
+  - inversion H. reflexivity.
+  - destruct (list_get_int its p) as [x|] eqn:Eg; [|discriminate].
+    destruct (fetch k its ps) as [xs'|]; [|discriminate]. inversion H; subst.
+    rewrite fetch_app, (IH xs' eq_refl). cbn [fetch rev]. now rewrite Eg.
+Qed.
+
+Lemma m_dict_spec s v which raw q :
+  ViewInv (items s) v ->
+  let L := map (dv_conv which raw) (filtered (v_tags v) (items s)) in
+  m_dict which raw q s v =
+  (s, Ok (match q with
+          | DIter => L
+          | DLen => [mkelem 0 0 (zlen L)]
+          | DReversed => rev L
+          | DIn x => [mkelem 0 0 (if existsb (fun y => elem_eqb y x) L then 1 else 0)]
+          end)).
+Proof.
+  intros HV L.
+  assert (Hf : fetch KNode (items s) (v_idx v) = Ok (filtered (v_tags v) (items s))).
+  { rewrite HV, fetch_all. cbn [from_raw]. now rewrite map_id. }
+  unfold m_dict. destruct q.
+  - now rewrite Hf.
+  - subst L. rewrite zlen_map, HV. now rewrite positions_length.
+  - rewrite (fetch_rev _ _ _ _ Hf). subst L. now rewrite map_rev.
+  - now rewrite Hf.
+Qed.
+
+(* view += values, raw += values: extend, then the no-op self-assignment *)
+Lemma iadd_spec s v xs :
+  forallb (matches (v_tags v)) xs = true ->
+  (exists s', v_iadd s xs = (s', OkNone) /\ filtered (v_tags v) (items s') = filtered (v_tags v) (items s) ++ xs)
+  /\ (exists s', raw_iadd s xs = (s', OkNone) /\ items s' = items s ++ xs /\ views s' = map (handle_splice (zlen (items s)) (zlen (items s)) xs) (views s)).
+Proof.
+  intros H. split; [exact (v_extend_spec s v xs H)|].
+  eexists. split; [reflexivity|]. split; reflexivity.
+Qed.
